@@ -257,6 +257,11 @@ func (g *GruleEngine) ExecuteWithContext(ctx context.Context, dataCtx ast.IDataC
 			break
 		}
 	}
+	if ctx.Err() != nil {
+		log.Error("Context canceled")
+
+		return ctx.Err()
+	}
 	log.Debugf("Finished Rules execution. With knowledge base '%s' version %s. Total #%d cycles. Duration %d ms.", knowledge.Name, knowledge.Version, cycle, time.Now().Sub(startTime).Nanoseconds()/1e6)
 
 	return nil
